@@ -95,6 +95,31 @@ Theorem C18_across_restart_outside_known : forall shard k1 rs1 k2 rs2,
 Proof. exact across_restart_outside_known. Qed.
 Print Assumptions C18_across_restart_outside_known.
 
+(** User-visible consequence: responses skip rows whose id was already written.  With pairwise
+    distinct ids every row is shown ... *)
+Theorem C18_unique_ids_all_rows_visible : forall ids,
+  NoDup ids -> dedup_ids [] (number_rows ids) = number_rows ids.
+Proof. exact unique_ids_all_rows_visible. Qed.
+Print Assumptions C18_unique_ids_all_rows_visible.
+
+(** ... so outside the known class everything applied over both lifetimes is visible ... *)
+Theorem C18_visible_after_restart_outside_known : forall shard k1 rs1 k2 rs2,
+  Forall (fun r => in_window r = true) rs1 -> Forall (fun r => in_window r = true) rs2 ->
+  (shard_component shard <> 0 \/ Forall (fun r => r <> id_epoch_ms) rs1) ->
+  restart_clock_not_advanced (gen_after k1 gen0 shard rs1) rs2 = false ->
+  visible_after_restart shard k1 rs1 k2 rs2 = number_rows (restart_history shard k1 rs1 k2 rs2).
+Proof. exact visible_after_restart_outside_known. Qed.
+Print Assumptions C18_visible_after_restart_outside_known.
+
+(** ... while in the known class stored events vanish from the answer (4 applied, 2 shown). *)
+Theorem C18_restart_drops_rows_refuted :
+  exists shard k1 rs1 k2 rs2,
+    Forall (fun r => in_window r = true) rs1 /\ Forall (fun r => in_window r = true) rs2 /\
+    length (restart_history shard k1 rs1 k2 rs2) = 4%nat /\
+    map fst (visible_after_restart shard k1 rs1 k2 rs2) = [0; 1].
+Proof. exact restart_drops_rows_refuted. Qed.
+Print Assumptions C18_restart_drops_rows_refuted.
+
 (** Outside the window the within-lifetime statement is false as well: at or before the epoch
     [saturating_sub] collapses all milliseconds to timestamp component 0 ... *)
 Theorem C18_before_epoch_refuted :
